@@ -153,10 +153,6 @@ pub fn kf_shape(gq: &GenQuery, t: &LogicalTable, layout: &Layout) -> Vec<&'stati
     if q.order_by.iter().any(|(e, _)| col_null_in_some_batch(e)) && ranges.len() > 1 {
         out.push("KF-orderby-null-typed-partition");
     }
-    // ORDER BY + WHERE over several partitions: per-partition results are concatenated, not merged
-    if !q.order_by.is_empty() && q.filter.is_some() && ranges.len() > 1 {
-        out.push("KF-orderby-filter-merge");
-    }
     // arithmetic over a column that is Null-typed in some partition is declined (see C03 KF-null-typed-compare)
     if q.select.iter().any(|i| !matches!(i.expr, Expr::Col(_)) && col_null_in_some_batch(&i.expr)) {
         out.push("KF-null-typed-compare");
